@@ -411,9 +411,11 @@ func contractsFor(c *Ctx, prop string) *bounds.Hooks {
 		c.fragLoopsSeen = map[*ssa.BasicBlock]bool{}
 		c.lenPairsSeen = map[ssa.Instruction]bool{}
 		if prop == "C10" {
-			return mergeHooks(twoFragHooks(c, c.fragLoopsSeen), lenPrefixHooks(c, c.lenPairsSeen), stapAOptionHooks(c, &c.stapASeen))
+			return mergeHooks(twoFragHooks(c, c.fragLoopsSeen), lenPrefixHooks(c, c.lenPairsSeen), stapAOptionHooks(c, &c.stapASeen), copyFillHooks(c, &c.copyFillSeen))
 		}
-		return mergeHooks(twoFragHooks(c, c.fragLoopsSeen), lenPrefixHooks(c, c.lenPairsSeen))
+		return mergeHooks(twoFragHooks(c, c.fragLoopsSeen), lenPrefixHooks(c, c.lenPairsSeen), copyFillHooks(c, &c.copyFillSeen))
+	case "C11", "C12":
+		return copyFillHooks(c, &c.copyFillSeen)
 	case "C17":
 		return c17Hooks(c, &c.c17Seen)
 	case "C16":
